@@ -2,6 +2,8 @@
 import json, os, sys, time, hashlib
 
 VERIF = os.path.dirname(os.path.dirname(os.path.abspath(__file__)))
+# evidence/ and replays/ normally live in /verif; the self-test matrix (seeded changes in scratch copies) redirects them
+OUT = os.environ.get("VERIF_OUT_DIR") or VERIF
 LEVEL = "model_checking"
 
 
@@ -79,7 +81,7 @@ class Run(object):
                     self._printed_known.add(e["id"])
                     print("KNOWN-FINDING: property=%s %s [%s]" % (self.prop, e["what"], e["id"]))
                 return False
-        d = os.path.join(VERIF, "replays", self.prop)
+        d = os.path.join(OUT, "replays", self.prop)
         os.makedirs(d, exist_ok=True)
         h = hashlib.sha1(json.dumps([sig, message], sort_keys=True, default=str).encode()).hexdigest()[:12]
         path = os.path.join(d, "%s.json" % h)
@@ -111,8 +113,8 @@ class Run(object):
             cov.update(extra)
         ev = dict(property_id=self.prop, tier=self.tier, seed=self.seed, level=LEVEL, coverage=cov,
                   assumptions=self.assumptions, wall_s=round(wall, 2), violations=len(self.violations))
-        os.makedirs(os.path.join(VERIF, "evidence"), exist_ok=True)
-        with open(os.path.join(VERIF, "evidence", "%s.json" % self.prop), "w") as f:
+        os.makedirs(os.path.join(OUT, "evidence"), exist_ok=True)
+        with open(os.path.join(OUT, "evidence", "%s.json" % self.prop), "w") as f:
             json.dump(ev, f, indent=1, default=str)
         if self.machinery_errors:
             print("%s: machinery failure (%d); no verdict" % (self.prop, len(self.machinery_errors)))
